@@ -322,19 +322,36 @@ func checkC13(p *Program, r *Report) {
 		return
 	}
 	// top of curve: volumes.Get(idx) with idx[0] == nLVA-1
-	isTop := func(v ssa.Value) bool {
+	var isTopS func(v ssa.Value, subst map[ssa.Value]ssa.Value, depth int) bool
+	isTopS = func(v ssa.Value, subst map[ssa.Value]ssa.Value, depth int) bool {
+		if depth > 4 {
+			return false
+		}
 		for _, o := range origins(v) {
+			// a field of a curves object: what was stored there when the object was built
+			if src, ok := fieldSource(o, subst); ok {
+				if !isTopS(src, subst, depth+1) {
+					return false
+				}
+				continue
+			}
 			c, ok := o.(*ssa.Call)
 			if !ok || callName(c.Common()) != "Get" && callName(c.Common()) != "Get1" {
 				return false
 			}
-			if origin1(recvOf(c.Common())) != ssa.Value(vols) {
+			if substOrigin(recvOf(c.Common()), subst) != ssa.Value(vols) {
 				return false
 			}
 			a := callArgs(c.Common())[0]
 			var idxv ssa.Value = a
 			if isIntVec(a.Type()) {
 				a = origin1(a)
+				if src, ok := fieldSource(a, subst); ok {
+					a = origin1(src)
+				}
+				if a == nil {
+					return false
+				}
 				vals, _, unk := vecElemAt(nil2eff(p), a, 0, c)
 				if unk != "" || len(vals) != 1 {
 					return false
@@ -348,12 +365,13 @@ func checkC13(p *Program, r *Report) {
 			if cst, ok := constInt(bo.Y); !ok || cst != 1 {
 				return false
 			}
-			if nlva != nil && origin1(bo.X) != ssa.Value(nlva) {
+			if nlva != nil && substOrigin(bo.X, subst) != ssa.Value(nlva) {
 				return false
 			}
 		}
 		return true
 	}
+	isTop := func(v ssa.Value) bool { return isTopS(v, map[ssa.Value]ssa.Value{}, 0) }
 	for _, sl := range sls {
 		// the outflow accumulator: the accumulation whose term is Δt-weighted and control-equivalent (release term)
 		eachInstr(k, func(_ *ssa.BasicBlock, _ int, ins ssa.Instruction) {
@@ -418,6 +436,32 @@ func checkC13(p *Program, r *Report) {
 	}
 	r.Floor("R13.3", "outflow contributions", r.PerRule["R13.3"][0], 2)
 	checkReleaseRuleOnEveryPath(p, r, m, k, key)
+	// R13.6: a sub-step never outruns what is left of the timestep
+	r.Rule("R13.6", "the sub-step is capped by the time remaining: the Δt subtracted from the remaining-time variable T of the sub-step loop depends on a math.Min(T, ·) evaluated earlier in the same iteration (a call that dominates the subtraction and has T itself as an argument) — a cap by anything else (the whole timestep) lets an accepted sub-step integrate past the end of the timestep while the totals are still divided by its nominal length")
+	for i, sl := range sls {
+		isMinOfT := func(v ssa.Value) bool {
+			c, ok := v.(*ssa.Call)
+			if !ok {
+				return false
+			}
+			f := c.Common().StaticCallee()
+			if f == nil || fnPkg(f) == nil || fnPkg(f).Path() != "math" || f.Name() != "Min" || !instrDominates(c, sl.sub) || !sl.loop.Blocks[c.Block()] {
+				return false
+			}
+			for _, a := range c.Common().Args {
+				if a == sl.sub.X || origin1(a) == sl.sub.X {
+					return true // the remaining time of this very iteration (not its initial value, the whole timestep)
+				}
+			}
+			return false
+		}
+		okey := fmt.Sprintf("%s:substep-cap#%d", key, i+1)
+		if dependsOn(sl.dt, isMinOfT, map[ssa.Value]bool{}) {
+			r.OK("R13.6", fmt.Sprintf("%s: the sub-step subtracted from the remaining time derives from math.Min(remaining time, ·) of the same iteration", key))
+		} else {
+			r.Fail("R13.6", okey, p.Pos(sl.sub.Pos()), "the sub-step subtracted from the remaining time is not capped by the remaining time (no math.Min with the remaining-time variable as an argument dominates the subtraction and feeds the sub-step): a sub-step accepted near the end of a timestep integrates inflow, release and net evaporation beyond the timestep, and the reported rates no longer balance the change in volume")
+		}
+	}
 }
 
 // checkReleaseRuleOnEveryPath (R13.5): whatever is written to the outflow series in a timestep derives from the
@@ -653,6 +697,19 @@ func lookupAgainst(p *Program, call *ssa.Call, xs *ssa.Parameter) bool {
 			}
 			if o == ssa.Value(xs) {
 				found = true
+			}
+			// a field of a struct parameter that was filled with the table where the struct was built (a literal in
+			// the kernel, or a constructor function)
+			{
+				subst := map[ssa.Value]ssa.Value{}
+				for i, prm := range callee.Params {
+					if i < len(call.Common().Args) {
+						subst[prm] = call.Common().Args[i]
+					}
+				}
+				if src, ok := fieldSource(o, subst); ok && substOrigin(src, subst) == ssa.Value(xs) {
+					found = true
+				}
 			}
 			// a field of the receiver struct that the caller filled with the table
 			if n, base, ok := loadedField(o); ok && len(callee.Params) > 0 && base == ssa.Value(callee.Params[0]) && len(call.Common().Args) > 0 {
